@@ -61,12 +61,12 @@ def riscv_ri_arithmetic3(obj, imm, rs1, rd):
     obj.type = type_data_processing
 
 
-@ispec("32<[ 0100000 imm(5) rs1(5) 101 rd(5) 0010011 ]", mnemonic="SRAI")
-@ispec("32<[ 0000000 imm(5) rs1(5) 101 rd(5) 0010011 ]", mnemonic="SRLI")
-@ispec("32<[ 0000000 imm(5) rs1(5) 001 rd(5) 0010011 ]", mnemonic="SLLI")
-@ispec("32<[ 0100000 imm(5) rs1(5) 101 rd(5) 0011011 ]", mnemonic="SRAI")
-@ispec("32<[ 0000000 imm(5) rs1(5) 101 rd(5) 0011011 ]", mnemonic="SRLI")
-@ispec("32<[ 0000000 imm(5) rs1(5) 001 rd(5) 0011011 ]", mnemonic="SLLI")
+@ispec("32<[ 010000 imm(6) rs1(5) 101 rd(5) 0010011 ]", mnemonic="SRAI")
+@ispec("32<[ 000000 imm(6) rs1(5) 101 rd(5) 0010011 ]", mnemonic="SRLI")
+@ispec("32<[ 000000 imm(6) rs1(5) 001 rd(5) 0010011 ]", mnemonic="SLLI")
+@ispec("32<[ 0100000 imm(5) rs1(5) 101 rd(5) 0011011 ]", mnemonic="SRAIW")
+@ispec("32<[ 0000000 imm(5) rs1(5) 101 rd(5) 0011011 ]", mnemonic="SRLIW")
+@ispec("32<[ 0000000 imm(5) rs1(5) 001 rd(5) 0011011 ]", mnemonic="SLLIW")
 def riscv_ri_shifts(obj, imm, rs1, rd):
     src1 = env.x[rs1]
     imm = env.cst(imm, 64)
@@ -79,7 +79,8 @@ def riscv_ri_shifts(obj, imm, rs1, rd):
 @ispec("32<[ imm(20) rd(5) 0010111 ]", mnemonic="AUIPC")
 def riscv_ri_arithmetic2(obj, imm, rd):
     dst = env.x[rd]
-    imm = env.cst(imm << 12, 64)
+    # the 32-bit value is sign-extended to 64 bits:
+    imm = env.cst(imm << 12, 32).signextend(64)
     obj.operands = [dst, imm]
     obj.type = type_data_processing
 
